@@ -152,6 +152,26 @@ class Policy:
             if up and r < 0.5:
                 return self.rnd.choice(up)
             return 0 if r < 0.92 else self.rnd.randrange(n)
+        if k == "nic":
+            # toggle interfaces / ports while traffic is flowing: a NIC that carried traffic earlier in the SAME step and is then disabled
+            amap = env.agent.action_manager.action_map
+            tog = [i for i, (a, o) in amap.items() if a in ("host-nic-disable", "host-nic-enable", "network-port-disable", "network-port-enable")]
+            net = env.game.simulation.network
+
+            def nic_of(o):
+                node = net.get_node_by_hostname(o.get("node_name") or o.get("target_nodename") or "")
+                return None if node is None else node.network_interface.get(o.get("nic_num") or o.get("port_num"))
+
+            off = [i for i in tog if amap[i][0].endswith("enable") and not amap[i][0].endswith("disable") and (lambda x: x is not None and not x.enabled)(nic_of(amap[i][1]))]
+            busy = [i for i in tog if amap[i][0].endswith("disable") and (lambda x: x is not None and x.enabled and bool(getattr(x, "traffic", None)))(nic_of(amap[i][1]))]
+            r = self.rnd.random()
+            if off and r < 0.5:
+                return self.rnd.choice(off)  # bring it back so that traffic can flow (and be cut) again
+            if busy and r < 0.8:
+                return self.rnd.choice(busy)  # an interface that carried traffic last step is likely to carry some this step too
+            if tog and r < 0.85:
+                return self.rnd.choice(tog)
+            return self.rnd.randrange(n) if self.rnd.random() < 0.3 else 0
         if k == "quiet":
             return 0 if self.rnd.random() < 0.7 else self.rnd.randrange(n)
         return self.rnd.randrange(n)
